@@ -370,6 +370,14 @@ func (e *c09Env) judge(res c09Result, caseNo int64, phase string, queuePos int) 
 	}
 	ok := res.err == ""
 	if b.expect == "success" && !ok && b.name != "set-address" && b.name != "discovery" {
+		// a call that gave up early returns before the farm's (delayed) reply has left: give the farm until T after it saw the
+		// request before deciding whether the reply was on its way in time
+		if v, seen := e.timing.Load(res.serial); seen {
+			t := v.(*c09Timing)
+			for t.recv.Load() != 0 && t.send.Load() == 0 && time.Duration(farm.Mono()-t.recv.Load()) < e.T {
+				time.Sleep(2 * time.Millisecond)
+			}
+		}
 		// the obligation exists only if the farm measurably sent the reply early enough
 		if in, off := e.answeredInTime(res.serial, 0.8); !in {
 			asked := false
@@ -435,7 +443,11 @@ func c09(c *Ctx) {
 	}
 
 	// ---- phase 1: one call at a time, exact per-call accounting
+	only2 := c.Mode == "port-queue" // a short batch other checks borrow: only the calls queued on a fixed bind port
 	rounds := c.N(2, 8)
+	if only2 {
+		rounds = 0
+	}
 	for round := 0; round < rounds; round++ {
 		order := append([]behaviour{}, c09Behaviours...)
 		for i := len(order) - 1; i > 0; i-- {
@@ -482,7 +494,7 @@ func c09(c *Ctx) {
 	}
 
 	// ---- phase 1b: the stray flood that outlasts the deadline (absolute, not per-datagram, deadline)
-	{
+	if !only2 {
 		floods := c.N(2, 6)
 		var wg sync.WaitGroup
 		results := make([]c09Result, floods)
@@ -503,7 +515,7 @@ func c09(c *Ctx) {
 	}
 
 	// ---- phase 1c: discovery while replies keep arriving past the timeout: it returns at the timeout and leaves nothing behind
-	{
+	if !only2 {
 		e.discoveryFlood.Store(true)
 		n := c.N(4, 12)
 		var wg sync.WaitGroup
@@ -536,6 +548,9 @@ func c09(c *Ctx) {
 	// ---- phase 2: calls queued on one fixed bind port are served in turn
 	{
 		rounds := c.N(3, 10)
+		if only2 {
+			rounds = c.N(5, 20)
+		}
 		for round := 0; round < rounds; round++ {
 			port := freePort(bindIP)
 			if port == 0 {
@@ -624,7 +639,7 @@ func c09(c *Ctx) {
 	}
 
 	// ---- phase 3: leak batches - parallel random sequences, listener cycles in between
-	{
+	if !only2 {
 		total := c.N(1200, 20000)
 		workers := 16
 		var done atomic.Int64
